@@ -9,6 +9,7 @@ import json
 import os
 
 from lib import vlib
+from engines import gossip
 from lib.vlib import Infra
 from engines import ledger
 
@@ -53,6 +54,8 @@ def run(res, prop, tier, seed, work, replay=None):
                      % (e["hist"], e["step"], mut, e["res"], e.get("err", "")[:80], reason), rp)
     if dead:
         raise Infra("%d hand-made valid block(s) were rejected: the histories cannot be driven" % dead)
+    if prop == "C06":
+        gossip.run(res, prop, tier, seed, work)      # injection over the wire: the same pool, reached through GIVT
     recs = vlib.read_ndjson(pool)
     by = collections.Counter("%s/%s/%s" % (r["ev"], r.get("kind", ""), r["res"]) for r in recs)
     kinds = collections.Counter(t["kind"] for r in recs if r["ev"] == "inject" for t in r["txns"])
